@@ -120,7 +120,9 @@ SetRange(s, r) == {Res([s EXCEPT !.range = r], "Ok")}
 RECURSIVE RemoveAll(_, _)
 RemoveAll(s, S) == IF S = {} THEN s ELSE LET k == CHOOSE x \in S : \A y \in S : x <= y
                                           IN RemoveAll(RemoveKey(s, k), S \ {k})
-Cleanup(s) == IF Cardinality(s.idx) < Threshold \/ s.range = 0 THEN {Res(s, "Ok")}
+\* thr: number of held records from which clean-up applies (Threshold; given per run on traces because the
+\* padded runs reach the real threshold with different amounts of filler)
+Cleanup(s, thr) == IF Cardinality(s.idx) < thr \/ s.range = 0 THEN {Res(s, "Ok")}
               ELSE {Res(RemoveAll(s, {k \in s.byDist : k >= s.range}), "Ok")}
 
 PaymentReceived(s) == {Res([s EXCEPT !.pay = s.pay + 1, !.tasks = Append(s.tasks, [kind |-> "F", c |-> s.pay + 1])], "Ok")}
@@ -211,7 +213,7 @@ W_C10_ViewsAgree(x) == Only0(x.r.st.byDist = x.r.st.idx /\ x.r.st.far = TrueFart
 W_C10_CleanupOnlyOutside(x) ==
     IF x.ev # "Cleanup" THEN {} ELSE
          {k \in Lost(x) : ~(x.s.range # 0 /\ k >= x.s.range)}
-    \cup {k \in Lost(x) : Cardinality(x.s.idx) < Threshold}
+    \cup {k \in Lost(x) : Cardinality(x.s.idx) < x.thr}
 
 \* "the figures a node signs into a quote equal the true values" (x.g.paid: payments received so far)
 W_C10_QuoteExact(x) ==
@@ -311,7 +313,7 @@ ModelResults(x) ==
       [] x.ev = "HandleNote"      -> HandleNote(x.s, x.ni)
       [] x.ev = "Get"             -> Get(x.s, x.k)
       [] x.ev = "SetRange"        -> SetRange(x.s, x.rg)
-      [] x.ev = "Cleanup"         -> Cleanup(x.s)
+      [] x.ev = "Cleanup"         -> Cleanup(x.s, x.thr)
       [] x.ev = "PaymentReceived" -> PaymentReceived(x.s)
       [] x.ev = "Quote"           -> Quote(x.s)
       [] x.ev = "Restart"         -> Restart(x.s, x.k)
